@@ -143,6 +143,9 @@ type Result struct {
 	After     *world.World
 	OpenErr   error
 	Duration  time.Duration
+	// Panic: the real scheduler panicked inside the cycle (recovered by the harness); Decisions
+	// then holds what had been emitted before the crash and After the store at that moment.
+	Panic string
 	// APIErrors: errors the fake API server returned for patch/update calls (not injected faults).
 	APIErrors []string
 }
@@ -433,17 +436,29 @@ func RunCycle(w *world.World, c Config, obs Observer) (res *Result, err error) {
 	if aerr != nil {
 		return nil, aerr
 	}
-	for _, a := range acts {
-		rec.curAction = string(a.Name())
-		a.Execute(ssn)
-		if obs != nil {
-			rec.mu.Lock()
-			ds := append([]Decision{}, rec.decisions...)
-			rec.mu.Unlock()
-			obs.AfterAction(string(a.Name()), ssn, ds)
+	func() {
+		defer func() {
+			if r := recover(); r != nil {
+				buf := make([]byte, 4096)
+				buf = buf[:runtime.Stack(buf, false)]
+				res.Panic = fmt.Sprintf("%v\n%s", r, buf)
+			}
+		}()
+		for _, a := range acts {
+			rec.curAction = string(a.Name())
+			a.Execute(ssn)
+			if obs != nil {
+				rec.mu.Lock()
+				ds := append([]Decision{}, rec.decisions...)
+				rec.mu.Unlock()
+				obs.AfterAction(string(a.Name()), ssn, ds)
+			}
 		}
+		framework.CloseSession(ssn)
+	}()
+	if res.Panic != "" {
+		real.WaitForWorkers(stopCh)
 	}
-	framework.CloseSession(ssn)
 	idleStart := time.Now()
 	for i := 0; !wt.VerifStatusUpdaterIdle(); i++ {
 		runtime.Gosched()
